@@ -348,6 +348,33 @@ Proof.
     intros r Hr. exists r. split; [exact Hr | apply incl_refl].
 Qed.
 
+(* the backend refuses the batch that was just registered: the flags of an aborted call, whatever was dispatched *)
+Lemma dispatch_shape_flags s b s1 : dispatch_shape s b false s1 true ->
+  c s1 = c s /\ iterating s1 = iterating s /\ orig s1 = orig s /\ (pre_left s = None -> pre_left s1 = None).
+Proof.
+  intros Hsh. inversion Hsh; subst; cbn; repeat split; auto.
+  - intros E. match goal with H : _ \/ _ |- _ => destruct H as [-> | [g ->]] end; rewrite E; reflexivity.
+  - intros E. match goal with H : false = false -> _ |- _ => destruct (H eq_refl) as [_ ->] end. rewrite E. reflexivity.
+Qed.
+
+Lemma inv3_refuse s b s1 : Inv3 s -> dispatch_shape s b false s1 true -> Inv3 (finalize s1 Finished true true).
+Proof.
+  intros [Hid Hio Hpa Hf HJ Hen Hea] Hsh.
+  destruct (dispatch_shape_flags s b s1 Hsh) as (Ec & Ei & Eo & Epl).
+  constructor; cbn [finalize phase c iterating orig pre_left aborting]; rewrite ?orb_true_r; try discriminate.
+  - rewrite Ei, Eo. exact Hio.
+  - rewrite Ec, Ei, Eo. intros E. destruct (Hpa E) as (A & B & C). auto.
+Qed.
+
+Lemma inv123_refuse : forall s b s1, Inv123 s -> 1 <= n_jobs (c s) -> 1 <= b ->
+  (phase s = StartFirst \/ phase s = StartLoop) -> dispatch_shape s b false s1 true ->
+  Inv123 (finalize s1 Finished true true).
+Proof.
+  intros s b s1 [H12 H3] Hnj Hb Hph Hsh. split; [|eapply inv3_refuse; eassumption].
+  pose proof (inv12_dispatch _ _ _ _ _ H12 Hsh) as [H1' H2'].
+  split; [revert H1'; frame1 | apply inv2_finalize; [exact H2' | left; auto]].
+Qed.
+
 Lemma inv123_close_try : forall s, Inv123 s -> phase s = Retrieving -> Inv123 (abandon (finalize s Finished true true)).
 Proof.
   (* close in the try block *)
@@ -467,6 +494,8 @@ Proof.
   - exact inv123_exhaust.
   - exact inv123_want.
   - exact inv123_close_try.
+  - intros s b s1 H Hnj Hb Hph Hsh. eapply inv123_refuse; eauto.
+  - intros s b s1 H Hnj Hb Hph Hsh. eapply inv123_refuse; eauto.
   - exact inv123_close_drain.
   - exact inv123_timeout.
   - exact inv123_yield.
